@@ -350,6 +350,35 @@ fn run_case(seed: u64, lean: &mut Lean, hist: &mut BTreeMap<String, u64>, sample
                 trace.push("crash-image ok".into());
                 *hist.entry("crash-image".into()).or_insert(0) += 1;
             }
+            39 if r.chance(1, 2) => {
+                // flush every keyspace, then maintenance: the number of journal files returns to one (C10)
+                for l in live.values() {
+                    let rotated = l.handle.rotate_memtable().unwrap_or(false);
+                    if rotated { lean.ask(&format!("db.rotate {}", l.id)); lean.ask("db.maintenance"); }
+                }
+                let mut guard = 0;
+                while fjall::verif::queued_worker_messages(dbref!()) > 0 && guard < 200 {
+                    guard += 1;
+                    let before: Vec<(u64, usize)> = live.values().map(|l| (l.id, l.handle.sealed_memtable_count())).collect();
+                    let kind = match fjall::verif::verif_worker_step(dbref!()) { Ok(k) => k, Err(e) => fail!("impl-vs-oracle", "worker step failed: {e:?}") };
+                    if kind == Some("flush") {
+                        for (id, b) in &before {
+                            let l = live.values().find(|l| l.id == *id).unwrap();
+                            if l.handle.sealed_memtable_count() < *b { lean.ask(&format!("db.flushsealed {id}")); }
+                        }
+                        lean.ask("db.maintenance");
+                    }
+                }
+                if let Err(e) = fjall::verif::verif_journal_maintenance(dbref!()) { fail!("impl-vs-oracle", "journal maintenance failed: {e:?}"); }
+                lean.ask("db.maintenance");
+                let all_flushed = live.values().all(|l| { use fjall::AbstractTree; l.handle.sealed_memtable_count() == 0 && l.handle.tree.get_highest_memtable_seqno().is_none() });
+                trace.push(format!("flush-all -> journals {}", dbref!().journal_count()));
+                *hist.entry("flush-all".into()).or_insert(0) += 1;
+                if all_flushed && dbref!().journal_count() != 1 {
+                    fails.push(Failure { kind: "impl-vs-oracle", detail: format!("every keyspace is flushed and maintenance ran, but {} journal files remain (must return to one); trace={trace:?}", dbref!().journal_count()), witness: None });
+                    return (fails, false, 0);
+                }
+            }
             _ => {
                 if let Err((k, e)) = check_all(dbref!(), &live, &refm, lean, "read") { fail!(k, "{e}"); }
                 trace.push("check".into());
